@@ -11,6 +11,17 @@ _ODE_NOTE = ("the strict C reader is trusted for the statement shapes it accepts
 _ODE_TECH = ("TLA+ spec OdeGen.tla model-checked with TLC over all small networks; TLC-chosen and random networks rendered by the real "
              "generator for dense/sparse/cusparse/odeint, read back with a strict C reader and validated event by event by Trace_OdeGen.tla")
 CHECKS = {
+    "C05": dict(level="model_checking", design_ref="DESIGN.md §4 C05, §11",
+        technique="TLA+ spec RateLaws.tla (law of every (format, code) as an expression tree over symbolic parameters) checked with TLC "
+                  "for totality and cross-format agreement; every (format, code) x coefficient sign/magnitude class encoded, parsed and "
+                  "rendered by the real code; the emitted C expression parsed strictly and its canonical tree compared by TLC in "
+                  "Trace_RateLaws.tla",
+        text="Structural identity of the emitted expression with the law tree means equal value for ALL temperatures, extinctions, "
+             "ionisation rates and coefficient values; the strict parser rejects operator fusion and stray tokens (valid C); all 34 "
+             "(format, code) pairs x {neg, zero, pos}^3 x magnitude classes incl. 1e+300 and 5e-324 are covered (exhaustive over the sign "
+             "classes in the thorough tier).",
+        note="law trees are my transcription of the published laws in the generator's operand order; a structural mismatch is re-examined "
+             "numerically against closed-form laws: value-equal => stale table (exit 2), else VIOLATION"),
     "C18": dict(level="model_checking", design_ref="DESIGN.md §4 C18, §11",
         technique="TLA+ spec RoundTrip.tla (write / read / edit / write / read with an abstract printing function) model-checked with TLC; "
                   "real networks from all formats and the API cycled through the native format, files decoded by an independent "
